@@ -140,6 +140,7 @@ func init() {
 		},
 		"(github.com/shopspring/decimal.Decimal).Div": func(a *Act, st *State, c *ssa.Function, x []Val, p tokenPos) Val {
 			a.oblige(st, "div", "decimal.Div", p, "decimal division by zero", not(eq(x[1].T, "0.0")))
+			st.assume(not(eq(x[1].T, "0.0")))
 			return t1(app(ddivFn(a.u.D), x[0].T, x[1].T), resType(c, 0))
 		},
 		"(github.com/shopspring/decimal.Decimal).Equal": func(a *Act, st *State, c *ssa.Function, x []Val, p tokenPos) Val {
@@ -194,6 +195,7 @@ func init() {
 		"(github.com/shopspring/decimal.Decimal).QuoRem": func(a *Act, st *State, c *ssa.Function, x []Val, p tokenPos) Val {
 			d := a.u.D
 			a.oblige(st, "div", "decimal.QuoRem", p, "decimal QuoRem by zero", not(eq(x[1].T, "0.0")))
+			st.assume(not(eq(x[1].T, "0.0"))) // execution continues only if the library did not panic
 			q := d.Fresh("quo", "Real")
 			r := d.Fresh("rem", "Real")
 			// d = d2*q + r ; |r| < |d2| * 10^-prec ; r has the sign of d (or is zero)
